@@ -192,9 +192,13 @@ def body(rec, c):
         if a_nodump != p_records:
             i = next((j for j, (x, y) in enumerate(zip(a_nodump, p_records)) if x != y), min(len(a_nodump),
                                                                                              len(p_records)))
-            rec.fail("dumping-changes-run", "the run with dumps deviates from the same run without dumping at record %d: "
+            tie = tie_order(a_nodump[i:i + 1], p_records[i:i + 1])
+            rec.fail("dumping-changes-run" + ("/tie-order" if tie else ""),
+                     "the run with dumps deviates from the same run without dumping at record %d: "
                      "%r vs %r (lengths %d / %d)" % (i, a_nodump[i:i + 1], p_records[i:i + 1], len(a_nodump),
                                                      len(p_records)), c)
+            if tie:
+                return      # the two runs are different histories from here on; nothing further to compare
         if not dumps:
             rec.exclude("no dump written")
             return
@@ -220,7 +224,8 @@ def body(rec, c):
             m = min(len(B), len(suffix))
             if B[:m] != suffix[:m]:
                 i = next(j for j in range(m) if B[j] != suffix[j])
-                rec.fail("resume-diverges", "resumed from dump %d (of %d) the run deviates at record %d after the dump: "
+                rec.fail("resume-diverges" + ("/tie-order" if tie_order([B[i]], [suffix[i]]) else ""),
+                         "resumed from dump %d (of %d) the run deviates at record %d after the dump: "
                          "resumed %r, original %r" % (k, len(dumps), i, B[i], suffix[i]), dict(c, dump=k))
                 continue
             movers = [r[3].split(":")[1] + r[3][:6] for r in B if r[0] == "get"]
@@ -234,6 +239,13 @@ def body(rec, c):
                       "first_records": B[:2]})
     finally:
         shutil.rmtree(work, ignore_errors=True)
+
+
+def tie_order(x, y):
+    """The first deviating records are two *different* handlers returned at the bit-identical time: the two runs
+    resolved a tie between simultaneous candidate events differently (recorded finding, see known_findings.json)."""
+    return (len(x) == 1 and len(y) == 1 and x[0][0] == "get" and y[0][0] == "get" and x[0][2] == y[0][2]
+            and x[0][1] != y[0][1])
 
 
 CHECKS = [Check("dump_resume", body, lambda: {"c": dump_case()}, quick=3, thorough=25, quick_shards=12,
